@@ -50,6 +50,7 @@ static char       reqkey[64];                             // Sec-WebSocket-Key o
 static size_t     scale = 1, fragsize;
 static uint16_t   port;
 static nng_dialer the_dialer;
+static nng_listener the_listener;
 static size_t     base_req_len; // length of the upgrade request the dialer emits without padding
 static size_t     pad_n;        // length of the padding header's value in force
 static char       pad_cls[8];   // "" or m1 / eq / p1: the emitted request block is padded to HTTP_BUFSIZE - 1, + 0, + 1 bytes
@@ -394,6 +395,9 @@ main(int argc, char **argv)
 				fprintf(stderr, "driver: ws listen %s: %s\n", url, nng_strerror(rv));
 				return 3;
 			}
+			the_listener = l;
+			base_req_len = 0;
+			pad_cls[0]   = 0;
 			nni_verif_io_max = atol(a[5]) > 0 ? (size_t) atol(a[5]) : (size_t) INT32_MAX;
 			continue;
 		}
@@ -494,7 +498,8 @@ main(int argc, char **argv)
 				char  *v = malloc(n + 1);
 				memset(v, 'p', n);
 				v[n] = 0;
-				rv    = nng_dialer_set_string(the_dialer, NNG_OPT_WS_HEADER "X-Pad", v);
+				rv    = is_client ? nng_dialer_set_string(the_dialer, NNG_OPT_WS_HEADER "X-Pad", v)
+				                  : nng_listener_set_string(the_listener, NNG_OPT_WS_HEADER "X-Pad", v);
 				pad_n = n;
 				free(v);
 				snprintf(pad_cls, sizeof(pad_cls), "%s", a[0]);
@@ -567,6 +572,7 @@ main(int argc, char **argv)
 			o("\"out\":{\"closed\":%s}", cn[c].closed_seen ? "true" : "false");
 		} else if (!strcmp(cmd, "http")) {
 			int         c = atoi(a[0]), expclosed = lenient ? 0 : atoi(a[2]), status = 0, wf = 1, then_close = 0;
+			const char *hblk = "na";
 			const char *k = a[1];
 			static char req[40000], pad[30000];
 			const char *own   = is_push ? "push" : "pull";
@@ -657,6 +663,18 @@ main(int argc, char **argv)
 					if ((cl = strcasestr(r, "\r\nContent-Length:")) != NULL) {
 						body = (size_t) atol(cl + 17);
 					}
+					if (status == 101 && !strcmp(k, "ok")) {
+						// the size class of the emitted header block (server role: padded through the listener's response headers)
+						if (pad_cls[0] == 0) {
+							base_req_len = hl;
+							hblk         = "base";
+						} else {
+							hblk = hl == EMIT_BUFSIZE - 1 ? "m1" : hl == EMIT_BUFSIZE ? "eq" : hl == EMIT_BUFSIZE + 1 ? "p1" : "other";
+						}
+						if (memchr(r, 0, hl - 4) != NULL) {
+							wf = 0;
+						}
+					}
 					if (status == 101) {
 						if (strcasestr(r, "\r\nUpgrade: websocket") == NULL || strcasestr(r, "\r\nConnection: Upgrade") == NULL ||
 						    strstr(r, "\r\nSec-WebSocket-Accept: s3pPLMBiTxaQ9kYGzzhZRbK+xOo=") == NULL) {
@@ -684,7 +702,7 @@ main(int argc, char **argv)
 					}
 				}
 			}
-			o("\"out\":{\"status\":%d,\"wf\":%s,\"closed\":%s}", status, wf ? "true" : "false", cn[c].closed_seen ? "true" : "false");
+			o("\"out\":{\"status\":%d,\"wf\":%s,\"closed\":%s,\"blk\":\"%s\"}", status, wf ? "true" : "false", cn[c].closed_seen ? "true" : "false", hblk);
 		} else if (!strcmp(cmd, "ws")) {
 			int      c = atoi(a[0]), fin = atoi(a[1]), op = atoi(a[2]), masked = atoi(a[3]), rsv = atoi(a[4]), lenenc = atoi(a[5]);
 			size_t   len  = (size_t) atol(a[6]) * scale;
